@@ -365,7 +365,7 @@ def eval_config(case, K):
     forms = build_config_forms(case)
     N = K.by_name[case['cls']].normalize_config
     problems, normal = eval_forms(N, forms)
-    if case['cls'] == 'Filter':         # Filter.init (filter.py:990) parses every normalised source with parse_topics
+    if case['cls'] == 'Filter':         # Filter.init (filter.py:997) parses every normalised source with parse_topics
         for name, nv in normal.items():
             if nv[0] != 'ok':
                 continue
@@ -525,7 +525,7 @@ def has_val_option(opt_lists):
 class Tally:
     """Caps the witnesses kept per signature; counts all of them."""
 
-    def __init__(self, rep, cap=12):
+    def __init__(self, rep, cap=3):
         self.rep, self.cap, self.counts = rep, cap, {}
 
     def violation(self, what, witness, sig):
@@ -861,11 +861,25 @@ def run(ctx):
                                  '"passes_without_ws_before_eq": true' in k for k in tally.counts) else 'neither: see witnesses')}
     rep.extra['selftest'] = selftest(K, data)
     rep.exhaustive = True
+    # one witness per distinct signature first (Report.finish writes out only the first few witnesses)
+    seen, first, rest = set(), [], []
+    for v in rep.violations:
+        key = json.dumps(v[2], sort_keys=True)
+        (rest if key in seen else first).append(v)
+        seen.add(key)
+    rep.violations = first + rest
     return rep.finish()
 
 
-def selftest(K, data):
-    """A corrupted expectation must be rejected by every evaluator (the binding is demonstrated, not assumed)."""
+def selftest(K=None, data=None):
+    """A corrupted expectation must be rejected by every evaluator (the binding is demonstrated, not assumed).
+    Called by run() on the vectors of the run; stand-alone it runs the quick specifications itself."""
+    if K is None:
+        common.use_repo()
+        K = Classes()
+    if data is None:
+        ctx = common.Ctx('C11', 'quick', 0)
+        data, _, _ = run_specs(ctx, Report(ctx))
     out = {}
     # grammar: swap src/dst of a mapping; flip an option kind
     vec = next(v for v in data['topics']['cases'] if any(m['src'] != m['dst'] for m in v['x']['maps']))
